@@ -243,9 +243,80 @@ def _hrows(d, nodes):
     return rows
 
 
-def _dot(nodes):
+MERMAID_SHAPES = ["rounded_edge", "stadium", "subroutine", "cylindrical", "circle", "asymmetric", "rhombus", "hexagon",
+                  "parallelogram", "parallelogram_alt", "trapezoid", "trapezoid_alt", "double_circle"]
+MERMAID_ARROWS = ["normal", "bold", "dotted", "open", "bold_open", "dotted_open", "invisible", "circle", "cross",
+                  "double_normal", "double_circle", "double_cross"]
+
+
+def style_opts(rng, op):
+    """presentation options (JSON-able): they restyle vertices / edges and must not change which vertices and edges exist"""
+    o = {}
+    if op == "dot":
+        if rng.random() < 0.4:
+            o["directed"] = False
+        if rng.random() < 0.4:
+            o["rankdir"] = rng.choice(["TB", "BT", "LR", "RL"])
+        for k, vals in (("bg_colour", ["gold", "#ffffff"]), ("node_colour", ["red", "gold"]), ("node_shape", ["box", "circle"]),
+                        ("edge_colour", ["blue"])):
+            if rng.random() < 0.3:
+                o[k] = rng.choice(vals)
+        o["node_by"] = rng.choice(["", "depth", "leaf", "attr", "all"])
+        o["edge_by"] = rng.choice(["", "depth", "attr", "all"])
+    else:
+        if rng.random() < 0.3:
+            o["rankdir"] = rng.choice(["TB", "BT", "LR", "RL"])
+        if rng.random() < 0.3:
+            o["line_shape"] = rng.choice(["basis", "linear", "step", "cardinal"])
+        if rng.random() < 0.3:
+            o["node_colour"] = "yellow"
+        if rng.random() < 0.3:
+            o["node_border_colour"] = "black"
+        if rng.random() < 0.3:
+            o["node_border_width"] = rng.choice([2, 0.5])
+        if rng.random() < 0.4:
+            o["node_shape"] = rng.choice(MERMAID_SHAPES)
+        if rng.random() < 0.4:
+            o["edge_arrow"] = rng.choice(MERMAID_ARROWS)
+        o["shape_by"] = rng.choice(["", "depth", "attr"])
+        o["arrow_by"] = rng.choice(["", "depth", "attr"])
+        o["style_by"] = rng.choice(["", "leaf", "all", "root", "attr"])
+        o["label_by"] = rng.choice(["", "attr"])
+        if rng.random() < 0.2:
+            o["title"] = "T"
+    return o
+
+
+def _decorate(nodes):
+    """presentation attributes on the real nodes (by position in pre-order), read by the *_attr options"""
+    for k, n in enumerate(nodes):
+        if n is None:
+            continue
+        if k % 3 == 0:
+            n.set_attrs({"m_shape": MERMAID_SHAPES[k % len(MERMAID_SHAPES)], "d_node": {"style": "filled", "fillcolor": "gold"}})
+        if k % 3 == 1:
+            n.set_attrs({"m_arrow": MERMAID_ARROWS[k % len(MERMAID_ARROWS)], "m_label": "L%d" % k, "d_edge": {"label": "e%d" % k}})
+        if k % 4 == 2:
+            n.set_attrs({"m_style": "fill:yellow,stroke:black"})
+
+
+def _dot(nodes, opts=None):
     import bigtree
-    g = bigtree.tree_to_dot(nodes[0])
+    o = dict(opts or {})
+    kw = {k: o[k] for k in ("directed", "rankdir", "bg_colour", "node_colour", "node_shape", "edge_colour") if k in o}
+    nb, eb = o.get("node_by"), o.get("edge_by")
+    if nb or eb:
+        _decorate(nodes)
+    if nb == "attr":
+        kw["node_attr"] = "d_node"
+    elif nb:
+        kw["node_attr"] = lambda n: ({"style": "filled", "fillcolor": "gold"} if (nb == "all" or (nb == "leaf" and n.is_leaf)
+                                                                                  or (nb == "depth" and n.depth % 2)) else {})
+    if eb == "attr":
+        kw["edge_attr"] = "d_edge"
+    elif eb:
+        kw["edge_attr"] = lambda n: ({"label": "w", "penwidth": 2} if (eb == "all" or n.depth % 2) else {})
+    g = bigtree.tree_to_dot(nodes[0], **kw)
     vs = [(n.get_name(), n.get("label")) for n in g.get_nodes()]
     es = [(e.get_source(), e.get_destination()) for e in g.get_edges()]
     return vs, es
@@ -258,9 +329,46 @@ def _mermaid_lines(d, nodes):
         kw["max_depth"] = d["md"]
     if d["nnp"]:
         kw["node_name_or_path"] = d["nnp"]
+    o = dict(d.get("sopts") or {})
+    for k in ("rankdir", "line_shape", "node_colour", "node_border_colour", "node_border_width", "node_shape", "edge_arrow", "title"):
+        if k in o:
+            kw[k] = o[k]
+    if any(o.get(k) for k in ("shape_by", "arrow_by", "style_by", "label_by")):
+        _decorate(nodes)
+    if o.get("shape_by") == "attr":
+        kw["node_shape_attr"] = "m_shape"
+    elif o.get("shape_by"):
+        kw["node_shape_attr"] = lambda n: MERMAID_SHAPES[n.depth % len(MERMAID_SHAPES)]
+    if o.get("arrow_by") == "attr":
+        kw["edge_arrow_attr"] = "m_arrow"
+    elif o.get("arrow_by"):
+        kw["edge_arrow_attr"] = lambda n: MERMAID_ARROWS[n.depth % len(MERMAID_ARROWS)]
+    sb = o.get("style_by")
+    if sb == "attr":
+        kw["node_attr"] = "m_style"
+    elif sb:
+        kw["node_attr"] = lambda n: ("fill:yellow" if (sb == "all" or (sb == "leaf" and n.is_leaf) or (sb == "root" and n.is_root)) else "")
+    if o.get("label_by"):
+        kw["edge_label"] = "m_label"
     text = bigtree.tree_to_mermaid(nodes[d["start"]], **kw)
-    body = text.split("flowchart TB\n", 1)[1].rsplit("\nclassDef default", 1)[0]
-    return body.split("\n") if body else []
+    body = text.split("\nflowchart " + o.get("rankdir", "TB") + "\n", 1)[1].rsplit("\nclassDef default", 1)[0]
+    lines = body.split("\n") if body else []
+    return [_plain_flow(ln) for ln in lines] if o else lines
+
+
+_SH = r'(?:[\(\[\{>/\\]+"(?P<%s>.*)"[\)\]\}/\\]+)'
+STYLED_FLOW = re.compile(r'^(?P<a>[0-9-]+)' + (_SH % "al") + r'?(?::::[^ ]+)? (?:-->|==>|-\.->|---|===|-\.-|~~~|--o|--x|<-->|o--o|x--x)'
+                         r'(?:\|[^|]*\|)? (?P<b>[0-9][0-9-]*)' + (_SH % "bl") + r'(?::::[^ ]+)?$', re.S)
+
+
+def _plain_flow(ln):
+    """a flow line written with any node shape / arrow / edge label / style class -> the default form id("label") --> id("label")
+    (presentation is not part of the claim; what is compared is which vertices and links exist, and their labels)"""
+    m = STYLED_FLOW.match(ln)
+    if not m:
+        return ln
+    a = m.group("a") + ('("%s")' % m.group("al") if m.group("al") is not None else "")
+    return a + " --> " + m.group("b") + '("%s")' % m.group("bl")
 
 
 def _s2t(text, prefixes):
@@ -291,7 +399,7 @@ def impl(case):
         if op == "hdec":
             return _hexpected_str(d)
         if op == "dot":
-            vs, es = _dot(nodes)
+            vs, es = _dot(nodes, d.get("sopts"))
             v = sorted(hx(a) + ":" + hx(b) for a, b in vs)
             e = sorted(hx(a) + ">" + hx(b) for a, b in es)
             return "V " + (",".join(v) if v else "-") + " E " + (",".join(e) if e else "-")
@@ -729,7 +837,7 @@ def _scheme_ids(spec):
 def _oracle_dot(d):
     spec = b_to_t(d["spec"]) if d.get("binary") else d["spec"]
     _root, nodes = _build(d)
-    vs, es = _dot(nodes)
+    vs, es = _dot(nodes, d.get("sopts"))
     pre = t_pre(spec)
     msgs = []
     ids = [v[0] for v in vs]
@@ -1212,6 +1320,13 @@ def gen(rng: random.Random, tier: str):
         prefixes = rng.choice([[branch, final], [branch.rstrip(), final.rstrip()], [final, branch], [], [], [branch]])
         add(mk({"op": "s2t", "prefixes": prefixes, "text": text}, ("s2t", "mutated" if r < 0.45 else "plain",
                                                                     "prefix-list" if prefixes else "no-prefix-list")))
+    # ---------------- the same dot / mermaid requests with presentation options (colours, shapes, arrows, edge labels,
+    # per-node style callables and attributes): they restyle, and must not change which vertices and links exist
+    styled = []
+    for c in cases:
+        if c.data["op"] in ("dot", "mermaid") and rng.random() < 0.5:
+            styled.append(Case(c.line, dict(c.data, sopts=style_opts(rng, c.data["op"])), tuple(c.tags) + ("style-options",)))
+    cases += styled
     return cases
 
 
